@@ -154,6 +154,16 @@ def ps_check(kind, case, rec):
     sc_c = np.zeros_like(rc2)
     np.add.at(sc_c, col, rc3[:, :2])
     rec.close("condensed body: forces slab = t * plane-strain", float(np.abs(sc_c - t * rc2).max()) / (t * max(float(np.abs(rc2).max()), 1e-9)), 1e-11)
+    # ... and the forces after the in-place change are those of the new state: the same body history with the new state handed over in
+    # another container gives the same vector (the vector of the condensed body does not depend on its lagging pressure)
+    g2b = fem.FieldContainer([fem.FieldPlaneStrain(r2, dim=2)])
+    c2b = fem.SolidBodyNearlyIncompressible(fem.NeoHooke(mu=mu_c), g2b, bulk=20.0 * mu_c)
+    c2b.assemble.vector(g2b)
+    c2b.assemble.matrix(g2b)
+    other = fem.FieldContainer([fem.FieldPlaneStrain(r2, dim=2)])
+    other[0].values[...] = u2
+    rc2b = np.asarray(c2b.assemble.vector(other).toarray()).reshape(-1, 2)
+    rec.close("condensed body: forces after an in-place change = forces for the same state from another container", float(np.abs(rc2 - rc2b).max()) / max(float(np.abs(rc2b).max()), 1e-9), 1e-11)
     # out-of-plane: no resultant force in z for a z-independent state
     fz = np.zeros(n2)
     np.add.at(fz, col, r_3d[:, 2])
